@@ -48,6 +48,7 @@ func (l *DefaultListener) OnSuccess() {
 		},
 	)
 
+	verifPoint("default.sampled")
 	l.updateLimit(endTime, current)
 }
 
@@ -68,6 +69,7 @@ func (l *DefaultListener) OnDropped() {
 		return *(window.AddDroppedSample(-1, int(l.currentMaxInFlight)))
 	})
 
+	verifPoint("default.sampled")
 	l.updateLimit(time.Now().UnixNano(), current)
 }
 
